@@ -398,6 +398,8 @@ def equal(a, b):
         return np_[0] == np_[1]
     if ka == KStr and kb == KStr:
         return lift(a).z == lift(b).z
+    if isinstance(a, SVal) and isinstance(b, SVal) and {ka, kb} == {KName, KInt}:
+        return a.z == b.z           # a name compared with a quantified Int standing for any name value
     if ka == KName or kb == KName:
         a2 = lift(a, KName) if not isinstance(a, SVal) else a
         b2 = lift(b, KName) if not isinstance(b, SVal) else b
